@@ -508,7 +508,7 @@ def sa_chem_param(rng, sol, k):
 def closed_param(rng, sol, k):
     u = lambda lo, hi: exact_double(rng, lo, hi)
     if sol == 'sod_1d':               # Gamma (mu is set consistently by gen_values); a few classical values too
-        return rng.choice([1.4, 2.0, 5.0 / 3.0, 3.0]) if rng.random() < 0.3 else u(1.2, 2.5)
+        return rng.choice([1.4, 2.0, 5.0 / 3.0, 3.0]) if rng.random() < 0.3 else (u(1.02, 1.12) if rng.random() < 0.3 else u(1.12, 2.5))   # below 1.1148 the rarefaction is transonic (its tail lies right of x = 0)
     if k == 'm':
         return sgn(rng) * u(0.5, 3.0)
     if k in ('sigma', 'sigma_d'):
@@ -522,6 +522,21 @@ def value_point(rng, sol, sig, vals=None):
     cancellation-prone rewrite shows"""
     n = sig.count('S')
     lens = sorted(k for k in (vals or {}) if k[0] == 'L' and vals[k] > 0)
+    freqs = sorted(k for k in (vals or {}) if k.startswith('a_') and vals[k] != 0)
+    special = ('rans_sa', 'fans_sa_steady_wall_bounded', 'euler_chem_1d', 'sod_1d', 'cp_normal', 'radiation_integrated_intensity', 'navierstokes_4d_compressible_powerlaw')
+    if lens and freqs and sol not in special and rng.random() < 0.5:
+        # a zero / extremum of one of the trigonometric factors: a x / L = j / 2 (to within 2^-k, or exactly): rewrites with a
+        # removable singularity or a cancellation at such points (1 + cos, tan, sin / x) show only there
+        nsp = CAT[sol]['dim'] if CAT[sol]['dim'] < 4 else 3
+        pt = []
+        for i in range(n):
+            if i >= nsp:
+                pt.append(exact_double(rng, 0.0, 2.0)); continue
+            L = vals[lens[i % len(lens)]]; a = abs(vals[rng.choice(freqs)]); j = rng.choice([1, 2, 3, 4])
+            d = rng.choice([0.0, 2.0 ** -rng.randint(8, 40), -2.0 ** -rng.randint(8, 40)])
+            s = 1.0 if sol.startswith('axi') and i == 0 else sgn(rng)
+            pt.append(s * L * j / (2.0 * a) * (1.0 + d))
+        return [hexf(v) for v in pt]
     if lens and sol not in ('rans_sa', 'fans_sa_steady_wall_bounded', 'euler_chem_1d', 'sod_1d', 'cp_normal', 'radiation_integrated_intensity'):
         nsp = CAT[sol]['dim'] if CAT[sol]['dim'] < 4 else 3
         pt = []
@@ -539,7 +554,10 @@ def value_point(rng, sol, sig, vals=None):
     if sol == 'euler_chem_1d':
         return [hexf(exact_double(rng, 0.0, 8.0))]
     if sol == 'sod_1d':
-        return [hexf(exact_double(rng, -1.5, 1.5)), hexf(exact_double(rng, 0.25, 1.0))][:n]
+        t = exact_double(rng, 0.25, 1.0)
+        if rng.random() < 0.3:         # slow characteristics: |x/t| < 0.1 (the tail of a transonic rarefaction, the neighbourhood of x = 0)
+            return [hexf(sgn(rng) * t * exact_double(rng, 0.002, 0.1)), hexf(t)][:n]
+        return [hexf(exact_double(rng, -1.5, 1.5)), hexf(t)][:n]
     if sol == 'cp_normal':
         return [hexf(exact_double(rng, -3.0, 3.0)) for _ in range(n)]
     if sol == 'radiation_integrated_intensity':
@@ -576,18 +594,20 @@ def scale_mix(rng, sol, vals, i=0):
     return vals
 
 
-PROTECT = ('L', 'Lx', 'Ly', 'Lz', 'Gamma', 'R', 'rho_0', 'p_0')
+PROTECT = ('L', 'Lx', 'Ly', 'Lz', 'R', 'rho_0', 'p_0')      # Gamma = 0 is unphysical but the residual is finite there (only Gamma = 1 is singular)
 
 
 def zeroable(sol):
     """parameters that may be set to EXACTLY zero without leaving the admissible set (amplitudes, frequencies,
     transport coefficients, constant parts of velocities): a fast path or guard keyed on an exact zero shows only there"""
-    if purity_picker(sol) is not admissible_param or sol == 'navierstokes_4d_compressible_powerlaw':
+    if sol == 'navierstokes_4d_compressible_powerlaw':      # every amplitude except the constant parts of rho and T (which stay positive)
+        return [k for k in CAT[sol]['pars'] if k.startswith('a_') and k not in ('a_rho0', 'a_T0')]
+    if purity_picker(sol) is not admissible_param:
         return []
     return [k for k in CAT[sol]['pars'] if k not in PROTECT]
 
 
-def gen_values(rng, sol, precs=('d', 'ld'), nassign=2, npts=3, evaluators=None, setter=None, variant='exc', paired=True, mix=False, zero_plan=None):
+def gen_values(rng, sol, precs=('d', 'ld'), nassign=2, npts=3, evaluators=None, setter=None, variant='exc', paired=True, mix=False, zero_plan=None, oat=0):
     """set every parameter to an admissible random value, then evaluate every provided evaluator at random
     points; with paired=True the same assignment and points are used in both precisions (inputs are exact
     doubles, so both instantiations receive identical mathematical inputs)."""
@@ -596,6 +616,7 @@ def gen_values(rng, sol, precs=('d', 'ld'), nassign=2, npts=3, evaluators=None, 
     S = []
     for p in precs:
         S.append(['init', p, 'cxx', 'val', sol])
+        S.append(['init', p, 'cxx', 'val2', sol])      # a second object of the same solution: assignments alternate between the two
     last_pts = []
     for ai in range(nassign):
         pick = setter or (sa_chem_param if sol in ('rans_sa', 'fans_sa_transient_free_shear', 'fans_sa_steady_wall_bounded', 'euler_chem_1d')
@@ -618,6 +639,8 @@ def gen_values(rng, sol, precs=('d', 'ld'), nassign=2, npts=3, evaluators=None, 
                 rad[rng.choice(sorted(rad))].append(exact_double(rng, 0.2, 0.4))
         cbk = [rng.choice(['const', 'arr', 'poly']), hexf(exact_double(rng, 0.5, 2.0)), hexf(exact_double(rng, 0.1, 0.9)), hexf(exact_double(rng, 0.1, 2.0))]
         cbk2 = [rng.choice(['const', 'arr', 'poly']), hexf(exact_double(rng, 2.5, 4.0)), hexf(exact_double(rng, 0.1, 0.9)), hexf(exact_double(rng, 0.1, 2.0))]
+        if rng.random() < 0.35:      # a positive callback far below one unit roundoff, or large: the caller's function is used as it is
+            cbk2 = ['const', hexf(rng.choice([1e-18, 1e-24, 1e-30, 1e6])), hexf(0.0), hexf(0.0)]
         pts = []
         # first, the evaluations of the previous assignment once more at the SAME points (new parameters): a
         # cache keyed on the point, or a value computed once and kept, shows up against the oracle
@@ -640,6 +663,7 @@ def gen_values(rng, sol, precs=('d', 'ld'), nassign=2, npts=3, evaluators=None, 
                     pts.append((fn, sig, value_point(rng, sol, sig, vals), rng.randint(1, e['dim']) if 'I' in sig else None))
         last_pts = pts[-len(caps):]
         for p in precs:
+            S.append(['select', p, 'cxx', 'val' if ai % 2 == 0 else 'val2'])
             for k in e['pars']:
                 S.append(['setp', p, 'cxx', k, hexf(vals[k])])
             if sol == 'sod_1d':
@@ -657,6 +681,23 @@ def gen_values(rng, sol, precs=('d', 'ld'), nassign=2, npts=3, evaluators=None, 
                 S.append(eval_line(p, 'cxx', fn, sig, pt, di, cbk))
                 if 'F' in sig:   # the same point with another caller-supplied function right away
                     S.append(eval_line(p, 'cxx', fn, sig, pt, di, cbk2))
+    # one parameter at a time: only ONE parameter changes, then every evaluator again at the very same point -- a value
+    # memoised under a key that omits that parameter (or derived from it once, at construction) shows against the oracle
+    if oat and last_pts and not zero_plan and sol not in ('sod_1d',):
+        ks = list(e['pars'])
+        for k in (ks if oat >= len(ks) else rng.sample(ks, oat)):
+            nv = pick(rng, sol, k)
+            if mix and k in TRANSPORT:
+                nv *= 3.0
+            vals[k] = nv
+            byarity = {}
+            for fn, sig, pt, di in last_pts:
+                byarity.setdefault(sig, (pt, di))
+            for p in precs:
+                S.append(['setp', p, 'cxx', k, hexf(nv)])
+                for fn, sig in caps:
+                    if sig in byarity:
+                        S.append(eval_line(p, 'cxx', fn, sig, byarity[sig][0], byarity[sig][1], cbk))
     ex = Execution(S, variant=variant, label='values:%s' % sol)
     ex.oracle = True
     return ex
